@@ -119,7 +119,7 @@ def _run(case):
     req = []
     Al = _mem_layout(A.copy(), layout)
     before = Al.copy()
-    scale = max(1.0, float(np.abs(A.astype(np.float64)).max()))
+    scale = max(1.0, float(np.abs(A.astype(np.float64)).max())) if A.size else 1.0
 
     def untouched(tag):
         if not np.array_equal(before, Al):
@@ -271,12 +271,14 @@ def _run(case):
         shape = tuple(case['shape'])
         got = dict()
         try:
-            ns, pos = mh.convolve._wavelet_center_compute(shape, border)
+            from mahotas.convolve import _wavelet_center_compute
+            ns, pos = _wavelet_center_compute(shape, border)
             got['shape'] = [int(x) for x in ns]
             got['delta'] = [int(p.start) for p in pos]
         except ValueError:
             got['shape'] = None
-        if got['shape'] is not None and int(np.prod(got['shape'])) <= 1 << 16:
+        import math
+        if got['shape'] is not None and math.prod(got['shape']) <= 1 << 16:
             fc = mh.wavelet_center(Al, border=border, cval=case.get('cval', 0.0))
             if list(fc.shape) != got['shape']:
                 f.append(dict(kind='model', key='center-shape-vs-compute', detail=dict(got=list(fc.shape))))
